@@ -266,7 +266,7 @@ func runC08(c *fw.Ctx) {
 			continue
 		}
 		names := map[string]string{"fmt": "fmt", "os": "os", "image/png": "png", "image/jpeg": "jpeg", "embed": "embed", "net/http/pprof": "pprof",
-			"math/rand": "rand", "crypto/rand": "rand", "x.com/y/log": "log", "log": "log", "gopkg.in/yaml.v2": "yaml", "strings": "strings", "unsafe": "unsafe"}
+			"math/rand": "rand", "crypto/rand": "rand", "x.com/y/log": "log", "log": "log", "gopkg.in/yaml.v2": "yaml", "strings": "strings", "unsafe": "unsafe", "io": "io", "net/url": "url", "bytes": "bytes", "unicode": "unicode"}
 		dec := func(s []byte) (*dst.File, error) {
 			d := decorator.NewDecoratorWithImports(token.NewFileSet(), "example.com/self", goast.WithResolver(simple.New(names)))
 			return d.Parse(s)
